@@ -21,6 +21,7 @@ type Val struct {
 type Env struct {
 	ex    *Exec
 	names map[string]Val
+	oldNames map[string]Val // values of names inside old(): parameters modified in place
 	cur   *State
 	old   *State
 	pos   token.Pos // position for resolving Go locals by name (0 = none)
@@ -30,7 +31,7 @@ type Env struct {
 }
 
 func (e *Env) child() *Env {
-	n := &Env{ex: e.ex, names: map[string]Val{}, cur: e.cur, old: e.old, pos: e.pos, pkg: e.pkg}
+	n := &Env{ex: e.ex, names: map[string]Val{}, cur: e.cur, old: e.old, pos: e.pos, pkg: e.pkg, oldNames: e.oldNames}
 	for k, v := range e.names {
 		n.names[k] = v
 	}
@@ -113,6 +114,9 @@ func (env *Env) elab(e SExpr) Val {
 		}
 		n := env.child()
 		n.cur = env.old
+		for k, v := range env.oldNames {
+			n.names[k] = v
+		}
 		// names bound to parameters keep their entry values; locals resolve in old state
 		v := n.elab(e.X)
 		env.quant = env.quant || n.quant
